@@ -333,7 +333,7 @@ def document_single_file(file, root, settings: Settings):
         # Path to file relative to input_path
         header_name = os.path.relpath(file, root)
     else:
-        header_name = file
+        header_name = os.path.basename(file)
 
     if prefix is not None:
         # If current file dir is same as root dir, replace "." with prefix
